@@ -166,6 +166,27 @@ func c14PasswordLimiter(t *testing.T, rep *verifReport, cfgBurst, cfgRate int, e
 		rep.Violate("C14/password/conservation/"+label, fmt.Sprintf("concurrent phase: %d attempts = %d answered 429 + %d others, but %d backend calls", nConc, c429, cOther, concCalls),
 			map[string]interface{}{"attempts": nConc, "429": c429, "others": cOther, "backend_calls": concCalls})
 	}
+	// ---- phase 3: sustained - a steady stream for a good two seconds, so that the refill rate (not only the burst)
+	// decides how many guesses get through
+	if len(live) > 0 {
+		callsBefore3 := atomic.LoadInt64(&be.calls)
+		var s429 int64
+		until := time.Now().Add(2200 * time.Millisecond)
+		for i := 0; time.Now().Before(until); i++ {
+			e := entries[live[i%len(live)]]
+			if resp := env.Do(e.mk(500000+i, false).Build()); resp.Code == 429 {
+				s429++
+			}
+			attempts++
+			time.Sleep(4 * time.Millisecond)
+		}
+		tLast = time.Now()
+		sustained := atomic.LoadInt64(&be.calls) - callsBefore3
+		n429 += s429
+		nBackend += sustained
+		rep.Eval(fmt.Sprintf("pw|%s|sustained|429=%v|calls=%v", label, s429 > 0, sustained > 0))
+		rep.Count("pw_sustained_backend_calls", int(sustained))
+	}
 	elapsed := tLast.Sub(tFirst).Seconds()
 	bound := float64(effBurst) + float64(effRate)*elapsed + 1
 	total := atomic.LoadInt64(&be.calls)
@@ -188,7 +209,7 @@ func c14PasswordLimiter(t *testing.T, rep *verifReport, cfgBurst, cfgRate int, e
 }
 
 func TestVerifC14(t *testing.T) {
-	rep := newVerifReport("C14", "password limiter: three configurations (floors, below-floor values raised to 10 and 1/s, larger) x sequential bursts through every registered route as basic-auth entry point + login form/basic, then 64-way concurrent attempts; conservation and burst+rate bound with harness-bracketed time over a counting backend that fails (directory error) for a fifth of the user names. TOTP limiter: several users in parallel, wrong guess then correct code inside / outside the 2-second window, a second guess sent while the first is held inside its evaluation (at its profile save, via the interposing SQL driver), 5 and 10 evaluated failures with lock-out observation (limiter state aged instead of waiting an hour); class = (limiter, configuration/entry point or step, outcome)")
+	rep := newVerifReport("C14", "password limiter: four configurations (floors, below-floor values raised to 10 and 1/s, larger, rate line omitted = default 10/s) x sequential bursts through every registered route as basic-auth entry point + login form/basic, then 64-way concurrent attempts, then a steady stream for 2.2 s; conservation and burst+rate bound with harness-bracketed time over a counting backend that fails (directory error) for a fifth of the user names. TOTP limiter: several users in parallel, wrong guess then correct code inside / outside the 2-second window, a second guess sent while the first is held inside its evaluation (at its profile save, via the interposing SQL driver), 5 and 10 evaluated failures with lock-out observation (limiter state aged instead of waiting an hour); class = (limiter, configuration/entry point or step, outcome)")
 	defer rep.Finish()
 	var wg sync.WaitGroup
 	wg.Add(1)
@@ -197,7 +218,8 @@ func TestVerifC14(t *testing.T) {
 		c14TOTP(t, rep)
 	}()
 	c14PasswordLimiter(t, rep, 10, 1, 10, 1)
-	c14PasswordLimiter(t, rep, 3, 0, 10, 1) // rate 0 / burst 3 are below the floors: raised to 10 and 1/s
+	c14PasswordLimiter(t, rep, 3, 0, 10, 1)    // rate 0 / burst 3 are below the floors: raised to 10 and 1/s
+	c14PasswordLimiter(t, rep, 12, -1, 12, 10) // rate line left out of the file: the documented default, 10/s
 	c14PasswordLimiter(t, rep, 50, 20, 50, 20)
 	wg.Wait()
 	rep.Floor("pw_429", 100)
@@ -205,7 +227,7 @@ func TestVerifC14(t *testing.T) {
 	rep.Floor("pw_backend_errors", 5)
 	rep.Floor("totp_spacing_checked", 3)
 	rep.Floor("totp_lockout_checked", 1)
-	rep.Floor("totp_overlap_checked", 2)
+	rep.Floor("totp_overlap_rounds_decided", 2) // judged, or found impossible because the tree serialises the two guesses
 	rep.Floor("totp_relogin_checked", 1)
 	rep.Floor("totp_simultaneous_rounds", 25)
 }
@@ -280,14 +302,27 @@ func c14TOTP(t *testing.T, rep *verifReport) {
 			} else {
 				rep.Count("totp_spacing_inconclusive_samples", 1)
 			}
-			time.Sleep(2100 * time.Millisecond)
-			h2, _, _, code2 := try(u, verifTOTPCode(u.secret, time.Now()))
-			rep.Eval(fmt.Sprintf("totp|after-window|honoured=%v", h2))
+			// positive control: the limiter lets a correct code through again once its window is over.  The statement
+			// bounds the rate from above only - a tree that spaces evaluations further apart is within it - so the
+			// correct code is offered after 2.1 s and, if refused, again after longer pauses; a user whose correct code
+			// is still refused after ~20 s of silence following ONE wrong guess cannot log in at all: reported as such
+			// (not as a guessing-rate violation) and the negative verdicts above count for nothing.
+			h2, code2, waited := false, 0, time.Duration(0)
+			for _, pause := range []time.Duration{2100 * time.Millisecond, 3100 * time.Millisecond, 5100 * time.Millisecond, 9100 * time.Millisecond} {
+				time.Sleep(pause)
+				waited += pause
+				if h2, _, _, code2 = try(u, verifTOTPCode(u.secret, time.Now())); h2 {
+					break
+				}
+			}
+			rep.Eval(fmt.Sprintf("totp|after-window|honoured=%v|first-try=%v", h2, waited < 3*time.Second))
 			if !h2 {
-				rep.Violate("C14/totp/correct-code-refused-after-window", "a correct code sent more than 2 s after the last attempt was refused",
-					map[string]interface{}{"user": u.name, "status": code2})
+				rep.Inconc("TOTP positive control failed: after one wrong guess the correct code of %s was refused at 2.1 s, 5.2 s, 10.3 s and 19.4 s (last status %d)", u.name, code2)
 			} else {
 				rep.Count("totp_honoured_after_window", 1)
+				if waited > 3*time.Second {
+					rep.Obs("the correct code was honoured only %.1f s after the wrong guess (spacing longer than 2 s: stricter than the statement requires)", waited.Seconds())
+				}
 			}
 		}(i)
 	}
@@ -529,7 +564,10 @@ func c14TOTPOverlap(rep *verifReport) {
 		t0 := time.Now()
 		go func() { doneA <- post(good) }()
 		if !wait(aSaving) {
-			unwind("the first guess never reached its profile save")
+			// (with the second guess parked right after its profile load: a tree that serialises one user's code checks
+			// from before the load keeps the first guess waiting - the overlap this round is after cannot exist there)
+			unwind("the first guess never reached its profile save while the second was parked after its load: the two are serialised")
+			rep.Count("totp_overlap_rounds_decided", 1)
 			continue
 		}
 		relB.Do(func() { close(releaseB) })
@@ -557,6 +595,7 @@ func c14TOTPOverlap(rep *verifReport) {
 			continue
 		}
 		rep.Count("totp_overlap_checked", 1)
+		rep.Count("totp_overlap_rounds_decided", 1)
 		if evaluated {
 			rep.Violate("C14/totp/evaluated-while-another-guess-in-flight", "a guess sent while another guess for the same user was still being evaluated (both inside 2 s) was evaluated too", c)
 		} else {
